@@ -370,14 +370,116 @@ def listener(check, P):
     return n
 
 
+def job_indexing(check, P):
+    """R5: the i-th entry of (layer_idxs, line_idxs) locates the i-th job line in all_layers, wherever lines are stored."""
+    from ..interp import Interp, Frame
+    n = 0
+    f = P.func("GCode._preprocess", "printrun.gcoder")
+    nested = [x for x in ast.walk(f.node) if isinstance(x, ast.FunctionDef) and x.name == "append_lines"]
+    if len(nested) != 1:
+        raise AnalysisError("C15.R5: GCode._preprocess has no nested append_lines any more")
+    nested = nested[0]
+    I = Interp(P)
+    I.intrinsics["Layer"] = lambda I_, fv, a, k, node: I_.alloc(AList(list(I_.deref(a[0]).items) if a and isinstance(a[0], Ref) and isinstance(I_.deref(a[0]), AList) else []))
+    OLD = [Unk("old0", "line"), Unk("old1", "line")]
+    NEW = [Unk("new0", "line"), Unk("new1", "line"), Unk("new2", "line")]
+
+    def located(I_, layers, li, ni):
+        """the lines located by the index pairs, in order"""
+        out = []
+        for a, b in zip(li, ni):
+            a, b = I_.const_int(a), I_.const_int(b)
+            if a is None or b is None or not (0 <= a < len(layers)):
+                out.append(None)
+                continue
+            lay = I_.deref(layers[a]) if isinstance(layers[a], Ref) else None
+            out.append(lay.items[b] if isinstance(lay, AList) and lay.items is not None and 0 <= b < len(lay.items) else None)
+        return out
+
+    for existing in (True, False):
+        def entry(I_, _, existing=existing):
+            fr = Frame(f, f.module, {}, qualname="GCode._preprocess")
+            I_.frames = [fr]
+            try:
+                layers = [I_.alloc(AList(list(OLD)))] if existing else []
+                all_layers = I_.alloc(AList(layers))
+                fr.env.update(build_layers=TRUE, all_layers=all_layers,
+                              layer_idxs=I_.alloc(AList([Const(0), Const(0)] if existing else [])),
+                              line_idxs=I_.alloc(AList([Const(0), Const(1)] if existing else [])),
+                              cur_layer_has_extrusion=Choice("has_extrusion", "bool"), prev_z=Num(Poly.sym("prev_z")), last_layer_z=Num(Poly.sym("last_z")),
+                              totalduration=Num(Poly.sym("tot")), layerbeginduration=Num(Poly.sym("beg")), layer_callback=NONE,
+                              all_zs=Unk("all_zs", "object"), self=Unk("self", "object"))
+                I_.exec(nested, fr)
+                I_.call(fr.env["append_lines"], [I_.alloc(AList(list(NEW))), FALSE], {}, nested)
+                got = located(I_, I_.deref(all_layers).items, I_.deref(fr.env["layer_idxs"]).items, I_.deref(fr.env["line_idxs"]).items)
+                return Tup(tuple(x if x is not None else Const("<nothing>") for x in got))
+            finally:
+                I_.frames = []
+        done = 0
+        for path in I.explore(lambda I_: None, entry, max_dev=None, max_paths=200):
+            n += 1
+            if path.outcome != "return":
+                continue
+            done += 1
+            want = (OLD if existing else []) + NEW
+            got = list(path.value.items)
+            what = "merged into the last layer" if (existing and len(got) and path.facts.get("bool:has_extrusion") is not True or path.facts.get("cmp:Eq:last_z - prev_z") is True) else "opening a new layer"
+            if got == want:
+                check.ok("R5", f"_preprocess.append_lines ({'existing layer' if existing else 'empty job'}, {what}): index pairs locate the job lines in order")
+            else:
+                check.violation("R5", f"append_lines:{'existing' if existing else 'empty'}:index-pairs",
+                                f"GCode._preprocess.append_lines ({'a job that already has a layer of two lines' if existing else 'an empty job'}, {what}) stores three lines, "
+                                f"after which (layer_idxs[i], line_idxs[i]) locate {[I.tag(x) for x in got]} instead of {[I.tag(x) for x in want]}: "
+                                "the sender walks the job through these pairs, so lines are sent twice and others never", [decisions_text(path)])
+        check.floor(done >= 1, f"C15.R5: append_lines ({'existing' if existing else 'empty'}) has no completing path")
+    # GCode.append(command): the single-line path used by the writers
+    fa = P.func("GCode.append", "printrun.gcoder")
+    gcls = P.cls("GCode", "printrun.gcoder")
+    I.intrinsics["GCode._preprocess"] = lambda I_, fv, a, k, node: NONE
+
+    def entry_append(I_, _):
+        I_.frames = [Frame(None, fa.module, {}, qualname="<entry>")]
+        try:
+            layer = I_.alloc(AList(list(OLD)))
+            all_layers = I_.alloc(AList([layer]))
+            g = I_.alloc(AObj(gcls, {"lines": I_.alloc(AList(list(OLD))), "append_layer": layer, "append_layer_id": Const(0), "all_layers": all_layers,
+                                      "layer_idxs": I_.alloc(AList([Const(0), Const(0)])), "line_idxs": I_.alloc(AList([Const(0), Const(1)]))}, "job"))
+            I_.call_function(fa, [g, Unk("arg.command", "str")], {}, fa.node)
+            o = I_.deref(g)
+            got = located(I_, I_.deref(all_layers).items, I_.deref(o.fields["layer_idxs"]).items, I_.deref(o.fields["line_idxs"]).items)
+            lines = I_.deref(o.fields["lines"]).items
+            return Tup(tuple(x if x is not None else Const("<nothing>") for x in got) + (lines[-1], Const(len(lines)),))
+        finally:
+            I_.frames = []
+    stored = 0
+    for path in I.explore(lambda I_: None, entry_append, max_dev=None, max_paths=200):
+        n += 1
+        if path.outcome != "return":
+            continue
+        got = list(path.value.items)
+        if got[-1] == Const(len(OLD)):
+            continue                # empty command: nothing stored
+        stored += 1
+        newline = got[-2]
+        if got[:-2] == OLD + [newline]:
+            check.ok("R5", "GCode.append: the new line is located by the new index pair")
+        else:
+            check.violation("R5", "append:index-pair", f"GCode.append stores a line after which the index pairs locate {[I.tag(x) for x in got[:-2]]} "
+                            f"instead of the two earlier lines and the new one ({I.tag(newline)})", [decisions_text(path)])
+    check.floor(stored >= 1, "C15.R5: GCode.append has no storing path")
+    return n
+
+
 def run(check, repo, tier):
     check.rule("R1", "framing N<lineno> <command>*<xor over the prefix>\\n; numbered text stored before the device write")
     check.rule("R2", "numbering: current lineno with checksum, lineno and queueindex advance by one; startprint resets to 0 and announces M110 N-1 first")
     check.rule("R3", "resend window dominates the queues: sentlines[resendfrom] re-sent un-renumbered, resendfrom += 1, nothing else")
+    check.rule("R5", "job indexing: wherever the parser stores job lines, the i-th (layer, line) index pair locates the i-th line of the job")
     check.rule("R4", "listener: ok sets clear; resend assigns resendfrom from the first integer token, then clear")
     P = Program(repo)
-    n = framing(check, P) + numbering(check, P) + listener(check, P)
-    check.analysed = {"program": P.stats(), "abstract_paths": n, "functions": ["printcore._send", "_checksum", "_sendnext", "startprint", "_reset_line_numbers", "_listen"]}
+    n = framing(check, P) + numbering(check, P) + listener(check, P) + job_indexing(check, P)
+    check.analysed = {"program": P.stats(), "abstract_paths": n, "functions": ["printcore._send", "_checksum", "_sendnext", "startprint", "_reset_line_numbers", "_listen",
+                                                                               "GCode._preprocess.append_lines", "GCode.append"]}
     check.sample({"function": "printcore._send", "written": "N<lineno> <command>*<reduce(xor, map(ord, 'N<lineno> <command>'))>\\n", "stored_first": "sentlines[lineno]"})
     check.coverage["exhaustive"] = True
     check.explanation = (
